@@ -624,10 +624,10 @@ pub mod waitlists {
         pub fn visit_roots<F: FnMut(Slot)>(&mut self, fct: F) {
             self.0.visit_roots(fct)
         }
-        /// (capacity, entries, tombstones = slots whose key == DELETED)
-        pub fn summary(&self) -> (usize, usize, usize) {
+        /// (capacity, entries, tombstones = slots whose key == DELETED, the map's own `deleted` counter)
+        pub fn summary(&self) -> (usize, usize, usize, usize) {
             let tomb = self.0.data.iter().filter(|e| e.key.to_usize() == DELETED).count();
-            (self.0.capacity, self.0.entries, tomb)
+            (self.0.capacity, self.0.entries, tomb, self.0.deleted)
         }
         /// the table's own idea of the epoch it was built in
         pub fn gc_epoch(&self) -> usize {
